@@ -1281,6 +1281,17 @@ func (r *Resolver) getTrigger(id uint64) (*trigger, bool) {
 	return trig, ok
 }
 
+// triggerOf returns the trigger an updater feeds.
+// Trigger ids are re-used: a callback of a source whose trigger was already removed
+// must not reach the trigger another subscriber registered under the same id meanwhile.
+func (r *Resolver) triggerOf(updater *subscriptionUpdater) (*trigger, bool) {
+	trig, ok := r.getTrigger(updater.triggerID)
+	if !ok || trig.updater != updater {
+		return nil, false
+	}
+	return trig, true
+}
+
 // markTriggerInitialized marks a trigger as initialized and reports it.
 // Trigger ids are re-used: nothing happens if the trigger was removed meanwhile,
 // even if a new trigger is registered under the same id by now.
@@ -1330,8 +1341,8 @@ func (r *Resolver) doneTriggerFromUpdater(updater *subscriptionUpdater) {
 
 // handleTriggerComplete delivers a complete signal to all subscriptions on the trigger.
 // Does NOT detach the trigger — Done() does that.
-func (r *Resolver) handleTriggerComplete(triggerID uint64) {
-	trig, ok := r.getTrigger(triggerID)
+func (r *Resolver) handleTriggerComplete(updater *subscriptionUpdater) {
+	trig, ok := r.triggerOf(updater)
 	if !ok {
 		return
 	}
@@ -1346,8 +1357,8 @@ func (r *Resolver) handleTriggerComplete(triggerID uint64) {
 
 // handleTriggerError delivers a terminal error to all subscriptions on the trigger,
 // bypassing the resolve pipeline. Does NOT detach the trigger — Done() does that.
-func (r *Resolver) handleTriggerError(triggerID uint64, data []byte) {
-	trig, ok := r.getTrigger(triggerID)
+func (r *Resolver) handleTriggerError(updater *subscriptionUpdater, data []byte) {
+	trig, ok := r.triggerOf(updater)
 	if !ok {
 		return
 	}
@@ -1506,13 +1517,13 @@ type pendingFilterError struct {
 }
 
 // handleTriggerUpdate sends data to all subscriptions of a trigger.
-func (r *Resolver) handleTriggerUpdate(id uint64, data []byte) {
-	trig, ok := r.getTrigger(id)
+func (r *Resolver) handleTriggerUpdate(updater *subscriptionUpdater, data []byte) {
+	trig, ok := r.triggerOf(updater)
 	if !ok {
 		return
 	}
 	if r.options.Debug {
-		fmt.Printf("resolver:trigger:update:%d\n", id)
+		fmt.Printf("resolver:trigger:update:%d\n", updater.triggerID)
 	}
 
 	subs, filterErrors := trig.filterSubscriptions(data)
@@ -1534,14 +1545,14 @@ func (r *Resolver) handleTriggerUpdate(id uint64, data []byte) {
 }
 
 // handleUpdateSubscription sends data to a single subscription.
-func (r *Resolver) handleUpdateSubscription(id uint64, data []byte, subIdentifier SubscriptionIdentifier) {
-	trig, ok := r.getTrigger(id)
+func (r *Resolver) handleUpdateSubscription(updater *subscriptionUpdater, data []byte, subIdentifier SubscriptionIdentifier) {
+	trig, ok := r.triggerOf(updater)
 	if !ok {
 		return
 	}
 
 	if r.options.Debug {
-		fmt.Printf("resolver:trigger:subscription:update:%d:%d,%d\n", id, subIdentifier.ConnectionID, subIdentifier.SubscriptionID)
+		fmt.Printf("resolver:trigger:subscription:update:%d:%d,%d\n", updater.triggerID, subIdentifier.ConnectionID, subIdentifier.SubscriptionID)
 	}
 
 	sub, filterErr := trig.filterSubscription(subIdentifier, data)
@@ -1955,7 +1966,7 @@ func (s *subscriptionUpdater) Update(data []byte) {
 	if s.debug {
 		fmt.Printf("resolver:subscription_updater:update:%d\n", s.triggerID)
 	}
-	s.resolver.handleTriggerUpdate(s.triggerID, data)
+	s.resolver.handleTriggerUpdate(s, data)
 }
 
 func (s *subscriptionUpdater) Heartbeat() {
@@ -1976,7 +1987,7 @@ func (s *subscriptionUpdater) UpdateSubscription(id SubscriptionIdentifier, data
 	if s.debug {
 		fmt.Printf("resolver:subscription_updater:update:%d\n", s.triggerID)
 	}
-	s.resolver.handleUpdateSubscription(s.triggerID, data, id)
+	s.resolver.handleUpdateSubscription(s, data, id)
 }
 
 func (s *subscriptionUpdater) Subscriptions() map[context.Context]SubscriptionIdentifier {
@@ -1995,7 +2006,7 @@ func (s *subscriptionUpdater) Complete() {
 	if s.debug {
 		fmt.Printf("resolver:subscription_updater:complete:%d\n", s.triggerID)
 	}
-	s.resolver.handleTriggerComplete(s.triggerID)
+	s.resolver.handleTriggerComplete(s)
 }
 
 func (s *subscriptionUpdater) Error(data []byte) {
@@ -2010,7 +2021,7 @@ func (s *subscriptionUpdater) Error(data []byte) {
 	if s.debug {
 		fmt.Printf("resolver:subscription_updater:error:%d\n", s.triggerID)
 	}
-	s.resolver.handleTriggerError(s.triggerID, data)
+	s.resolver.handleTriggerError(s, data)
 }
 
 func (s *subscriptionUpdater) Done() {
